@@ -98,7 +98,7 @@ func main() {
 		profs := strings.Split(*profile, ",")
 		seg := 0
 		for i := 0; i < *nseg; i++ {
-			cfg := drv.CrashCfg{Seed: *seed*1000 + i, Ops: *steps, DiskSz: *disk, Unstable: i%4 != 3, Profile: profs[i%len(profs)],
+			cfg := drv.CrashCfg{Seed: *seed*1000 + i, Ops: *steps, DiskSz: *disk, Unstable: (*seed+i)%3 != 2, Profile: profs[i%len(profs)],
 				Avoid: avoidSet(*avoid), Loss: *loss, Stride: *stride, Cont: *cont, Nested: *nested, MaxProbe: *maxprobe}
 			seg = drv.RunCrash(cfg, t, seg)
 		}
